@@ -1,13 +1,16 @@
 /-
 Protocol selection, `get_protocol` in `model/protocol/__init__.py`.
 
-The code hands the reported string to `awesomeversion`.  The model covers the release grammar
-`d+(.d+){1,3}` over ASCII digits (each component within CPython's digit limit) and compares
-major.minor numerically; every other string is treated as unparsable.  Strings awesomeversion
-accepts outside that grammar ("latest", "v2.1", "2", modifiers) are *unmodelled* and are not
-generated by the correspondence run (DESIGN section 7, C05).
+The code hands the reported string to `awesomeversion` and takes the first key, newest first, that the
+reported version is not below (`not AwesomeVersion(s) < AwesomeVersion(key)`, evaluated lazily by `next`).
+`Model/AwesomeVersion.lean` models that comparison for EVERY Python `str`; `getProtocolX` is `get_protocol`
+over it: a protocol, or the exception class the first failing comparison raises.
+
+The release grammar `d+(.d+){1,3}` over ASCII digits (each component within CPython's digit limit) keeps its
+own numeric definition (`verParse?`, `selectVer`, `getProtocolRelease?`); `C05.release_grammar_agrees` proves
+that the awesomeversion model coincides with it there.
 -/
-import AioMySensors.Model.PyNum
+import AioMySensors.Model.AwesomeVersion
 
 namespace AioMySensors
 
@@ -40,17 +43,41 @@ def selectVer (x : Nat × Nat) : Ver :=
   | some k => k.1
   | none => Gen.defaultVersion
 
-/-- Which exception `get_protocol` raises for a string outside the grammar: a component beyond
-the interpreter's digit limit is a `ValueError`, anything else a comparison error. -/
+/-- `get_protocol` on the release grammar, numerically (the definition the awesomeversion model is proved to
+agree with on that grammar). -/
+def getProtocolRelease? (s : Str) : Option Ver := (verParse? s).map fun p => selectVer (verKey p)
+
+/-- The generator expression of `get_protocol`: keys newest first, the first one `s` is not below. -/
+def getProtocolFrom (str : Str) (st : AvStrategy) : List (Ver × Nat × Nat) → Except AvErr Ver
+  | [] => .ok Gen.defaultVersion
+  | k :: ks =>
+    match avLtKeyOf str st k.2.1 k.2.2 with
+    | .error e => .error e
+    | .ok false => .ok k.1
+    | .ok true => getProtocolFrom str st ks
+
+/-- `get_protocol(s)` for any `str`: the protocol, or what the first failing comparison raises. -/
+def getProtocolX (s : Str) : Except AvErr Ver :=
+  getProtocolFrom (avString (avNorm s)) (avStrategy (avString (avNorm s))) keysDesc
+
+/-- The Python class of a comparison error.  `IndexError` is what awesomeversion's `sections` raises on a CalVer
+string that ends in `".\n"` once stripped (e.g. `"20.1.2.\n."`, reachable through an MQTT payload); whether the
+version handler catches it is read from the generated except tuple `Gen.excVersion`, like every other class. -/
+def AvErr.toPy : AvErr → PyExn
+  | .compare => .AwesomeVersionCompareException
+  | .value => .ValueError
+  | .index => .IndexError
+
+/-- `get_protocol(s)` with the exception class. -/
 def getProtocolE (s : Str) : Except PyExn Ver :=
-  match verParse? s with
-  | some p => .ok (selectVer (verKey p))
-  | none =>
-    let parts := splitOn '.' s
-    if parts.any (fun c => c.length > Gen.pyMaxStrDigits ∧ c.all Char.isDigit) then .error .ValueError
-    else .error .AwesomeVersionCompareException
+  match getProtocolX s with
+  | .ok v => .ok v
+  | .error e => .error e.toPy
 
 /-- `get_protocol(s)`: `none` = the comparison raises (mapped to `InvalidMessageError`). -/
-def getProtocol? (s : Str) : Option Ver := (verParse? s).map fun p => selectVer (verKey p)
+def getProtocol? (s : Str) : Option Ver :=
+  match getProtocolX s with
+  | .ok v => some v
+  | .error _ => none
 
 end AioMySensors
